@@ -35,6 +35,11 @@ def run_shard(ctx):
     ctx.run_given(arb.arbitrary_input(L), lambda x: judge_c07(ctx, L, x[0], x[1], x[2], x[3], x[4]), ctx.share(6000 if q else 100000), name="arbitrary")
     ctx.run_given(gen.messages(L), lambda c: judge_c07(ctx, L, c.type, c.cc, c.enc, c.data, "wellformed"), ctx.share(1500 if q else 20000), name="wellformed")
 
+    if not ctx.quick():
+        from .common import fuzz_campaign
+
+        ctx.run_plain(lambda: fuzz_campaign(ctx, "c07", 150000), "libfuzzer")
+
 
 def replay(ctx, payload):
     L = synthetic.extended_layout(layout()) if "SYN" in payload["type"] else layout()
